@@ -177,6 +177,17 @@ func handAssembled() map[string]asmProg {
 	m["hand-sizes"] = asmProg{name: strings.Repeat("n", 300), code: []byte{
 		oCONST, 0xF1, 59, oPRINT, // index 240 + 256*0 + 59 = 299
 		oCONST, 0xF1, 60, oCONST, 0xF1, 60, oEQ, oPRINT, oRET}, consts: cs, lfs: []int{241, 2288, 67824, 1 << 24}}
+	// three-byte operands: 2400 constants, CONST with the largest two-byte index (2287), the smallest
+	// three-byte one (2288) and the last constant (2399), POPN of nothing after them
+	var cs3 []any
+	for i := 0; i < 2400; i++ {
+		cs3 = append(cs3, i*3)
+	}
+	m["hand-sizes3"] = asmProg{name: "s3", code: []byte{
+		oCONST, 0xF8, 255, oPRINT, // 240 + 256*7 + 255 = 2287
+		oCONST, 0xF9, 0, 0, oPRINT, // 2288
+		oCONST, 0xF9, 0, 111, oPRINT, // 2288 + 111 = 2399
+		oCONST, 0xF9, 0, 111, oCONST, 0xF8, 255, oSUB, oPRINT, oRET}, consts: cs3, lfs: []int{2287, 2288, 67823}}
 	// blocks, fields, bind with a hand-written option byte, runtime error position from the position table
 	m["hand-blocks"] = asmProg{name: "b", code: []byte{
 		oDEFBLOCK, 0, 1, oTRUE, oSETFIELD, 2, oPOP, oDEFBLOCK, 3, 4, oGETFIELD, 2, oNOT, oSETFIELD, 5, oPOP, oENDBLOCK, oENDBLOCK,
